@@ -129,7 +129,9 @@ ReadHeader(f) ==
   ELSE IF n < 140 THEN HErr("eof")
   ELSE LET mapsize == FromBE32(Bytes(f, 136, 4)) IN
   IF mapsize < 0 THEN HErr("bad")
-  ELSE IF n < 152 THEN HErr("eof")
+  ELSE IF n < 144 THEN HErr("eof")
+  \* (a file cut inside the type field is reported as "no variant matched", not as cut off: error class as observed)
+  ELSE IF n < 152 THEN HErr("bad")
   ELSE LET kb == Bytes(f, 144, 8) IN
   IF kb # KindField("client") /\ kb # KindField("server") THEN HErr("bad")
   ELSE IF n < 156 THEN HErr("eof")
